@@ -151,6 +151,29 @@ def report(pid, tier, seed, m, sel, res, findings, cmd, t0, outdir):
         fn = m["functions"].get(f["fn"], {})
         if any(pid in m["clauses"][c]["tags"] for c in fn.get("clauses", []) if c in m["clauses"]):
             masked.append(f)
+    # Functions the overlay does not know carry no contract.  (a) A caller that leans on one cannot have its clauses
+    # decided by a failed proof: the failure may only mean "callee has no postcondition" (a harmless helper extraction
+    # looks exactly like that) -> undecided there, not a violation.  (b) A new *trait-method override* (nth, nth_back,
+    # fold, ...) on a type whose other methods carry clauses of this property replaces a std default the property
+    # relies on; nothing here can vouch for it -> undecided.  In both cases the bounded stand-in search follows.
+    unknown = m.get("without_record", [])
+    uname = set(k.split("::")[-1].split("@")[0] for k in unknown)
+    leaning = set(k for k, f in m["functions"].items() if k not in unknown and uname & set(f.get("callees", [])))
+    moved = [f for f in mine if f["fn"] in leaning and not (f["clause"] or "").endswith("#typeinv.post")]
+    if moved:
+        mine = [f for f in mine if f not in moved]
+        for f in moved:
+            f = dict(f, kind="tool", msg="%s (in a function that calls %s, which has no contract)" % (f["msg"], ", ".join(sorted(uname & set(m["functions"][f["fn"]].get("callees", []))))))
+            undecided.append(f)
+    for k in unknown:
+        fk = m["functions"].get(k, {})
+        if not fk.get("trait_impl"):
+            continue
+        tprefix = k.rsplit("::", 1)[0] + "::"
+        sib = [k2 for k2, f2 in m["functions"].items() if k2.startswith(tprefix) and k2 != k and any(pid in m["clauses"][c]["tags"] for c in f2.get("clauses", []) if c in m["clauses"])]
+        if sib:
+            undecided.append({"kind": "tool", "fn": k, "clause": None, "tags": [], "rendered": "",
+                              "msg": "new trait-method override %s has no contract; the clauses of %s on %s rely on the default it replaces" % (k, pid, tprefix[:-2])})
     known = known_findings()
     new_viol, known_hit = [], []
     for f in mine:
